@@ -35,7 +35,7 @@ func c08(c *Ctx) {
 	}
 	r.Floor("write sites checked (O3)", writes, 60)
 	r.Floor("result origin checks (O2)", outs, 16)
-	r.Floor("retained-state fields checked (O1)", keeps, 3)
+	r.Floor("retained-state fields checked (O1)", keeps, 2)
 	boundsFor(c, "C08", fns)
 	nm := 0
 	for _, o := range r.Obls {
